@@ -22,7 +22,8 @@ EXPLANATION = (
     "the NotUpperTriangular rejection rests, examines every stored entry of every column; (R10) update / scale / offset of the "
     "engine's copy go through the entry map in every arm (back-end rule re-run); (R11) the first pivot is read from the value "
     "array only when column 0 of the permuted matrix is non-empty (finding F8, fixed)."
-    ' (R12) every pass of the row loop reaches the pivot block (no `continue` past regularise / zero test / sign count / inverse), and the numeric pass leaves it only through the Dinv store or the ZeroPivot return.')
+    ' (R12) every pass of the row loop reaches the pivot block (no `continue` past regularise / zero test / sign count / inverse), and the numeric pass leaves it only through the Dinv store or the ZeroPivot return.'
+    ' (R13) is_triu scans the entries of every non-empty column (C16.R7 re-run).')
 ASSUMPTIONS = ['rustc MIR construction and trait resolution are correct', 'amd::order returns a valid permutation']
 
 
@@ -553,6 +554,9 @@ def run(ctx, rep, tier):
         triu_test(rep, F, tag)
         first_pivot_guard(rep, F, tag)
         every_pivot_finished(rep, F, tag)
+        # the NotUpperTriangular rejection rests on is_triu scanning every column (C16.R7 re-run)
+        from . import c16
+        c16.triangle(rep, F, tag, 'C12.R13')
         # "refactoring after value updates equals factoring the updated matrix": update / scale / offset go through the
         # entry map AtoPAPt in every arm (C08.R5 back-end rule re-run)
         from . import c08, c04
